@@ -203,7 +203,7 @@ class Tracer(object):
         if len(self.events) >= self.max_events:
             self.overflow = True
             raise TracerBroken("work bound exceeded: more than %d events" % self.max_events)
-        if self.solver is not None:
+        if self.solver is not None and self.snap != "none":
             ev["sc"] = self._scalars()
             if self.snap == "full" or (self.snap == "scalars" and ev["ev"] in ("finish", "abort")):
                 ev["snap"] = self._snapshot()
